@@ -3,6 +3,7 @@ package symex
 import (
 	"fmt"
 	"math/big"
+	"regexp"
 	"go/token"
 	"strings"
 
@@ -173,6 +174,13 @@ func (p *Path) vpIntrinsic(caller *frame, fn *ssa.Function, name string, args []
 	case "vp_RegexpFullMatch":
 		// reference semantics: pattern P matches ALL of s
 		pat := p.strArg(args[0], "pattern")
+		if cs := args[1].(Str); cs.isConcrete() {
+			re, err := regexp.Compile("^(?:" + pat + ")$")
+			if err != nil {
+				p.abortf("vp_RegexpFullMatch: pattern does not compile: %v", err)
+			}
+			return smt.ConstBool(re.MatchString(cs.c))
+		}
 		rx, err := compileRx("(?:" + pat + ")")
 		if err != nil {
 			p.abortf("vp_RegexpFullMatch: pattern does not compile: %v", err)
